@@ -383,3 +383,136 @@ Qed.
 (* ---------- C18: logging context ---------- *)
 Lemma log_contexts_private base rs : log_contexts false base rs = map (fun r => base ++ ids_of r) rs.
 Proof. induction rs as [|r t IH]; cbn [log_contexts map]; [reflexivity|]. rewrite IH. reflexivity. Qed.
+
+(* ---------- C16, real time: requests that arrive while others are in flight ---------- *)
+Definition rt_started (t : rthread) : bool := match t with RNotStarted _ => false | RRunning _ => true end.
+Definition rt_done (t : rthread) : option resp := match t with RRunning (TDone r) => Some r | _ => None end.
+
+(* the invariant: the state is the sequential run of lin; every thread in lin has started and is done with
+   the response the sequential run gives it; a thread that is done outside lin answered without the repository *)
+Record rt_inv (st0 : sstate) (ops : list op) (st : sstate) (ts : list rthread) (lin : list nat) : Prop := {
+  ri_len : length ts = length ops;
+  ri_nodup : NoDup lin;
+  ri_range : forall i, In i lin -> i < length ops;
+  ri_seq : exists rs, run_sequential lin ops st0 [] = (st, rs) /\
+           forall i o, nth_error ops i = Some o ->
+             (nth_error ts i = Some (RNotStarted o) /\ ~ In i lin) \/
+             (nth_error ts i = Some (RRunning (TReady o)) /\ zero_step o = None /\ ~ In i lin) \/
+             (exists r, nth_error ts i = Some (RRunning (TDone r)) /\ zero_step o = Some r /\ ~ In i lin) \/
+             (exists r, nth_error ts i = Some (RRunning (TDone r)) /\ In (i, r) rs /\ In i lin)
+}.
+
+Lemma rt_inv_start st0 ops : rt_inv st0 ops st0 (map RNotStarted ops) [].
+Proof.
+  constructor; [apply map_length|constructor|intros i []|]. exists []. split; [reflexivity|].
+  intros i o Ho. left. rewrite nth_error_map, Ho. split; [reflexivity|intros []].
+Qed.
+
+Lemma rt_event_inv st0 ops e st ts lin :
+  forallb atomic_op ops = true -> rt_inv st0 ops st ts lin ->
+  let '(st', ts', lin') := rt_event e st ts lin in
+  rt_inv st0 ops st' ts' lin' /\ (exists ext, lin' = lin ++ ext) /\
+  (forall j, (forall t, nth_error ts' j = Some t -> rt_started t = false) -> ~ In j lin').
+Proof.
+  intros Hat [Hlen Hnd Hrg (rs & Hseq & Hth)].
+  assert (Hns : forall j, (forall t, nth_error ts j = Some t -> rt_started t = false) -> ~ In j lin).
+  { intros j Hj Hin. pose proof (Hrg j Hin) as Hlt.
+    destruct (nth_error ops j) as [o|] eqn:Ho; [|apply nth_error_None in Ho; lia].
+    destruct (Hth j o Ho) as [(A & B)|[(A & _ & B)|[(r & A & _ & B)|(r & A & _ & B)]]]; try contradiction;
+      specialize (Hj _ A); discriminate Hj. }
+  destruct e as [i|i]; cbn [rt_event].
+  - (* a request arrives *)
+    destruct (nth_error ts i) as [[o|t]|] eqn:Ht.
+    + assert (Hi : i < length ops). { rewrite <- Hlen. apply nth_error_Some. congruence. }
+      destruct (nth_error ops i) as [o'|] eqn:Ho; [|apply nth_error_None in Ho; lia].
+      assert (o' = o).
+      { destruct (Hth i o' Ho) as [(A & _)|[(A & _)|[(r & A & _)|(r & A & _)]]]; rewrite Ht in A; congruence. }
+      subst o'. split; [|split; [exists []; rewrite app_nil_r; reflexivity|]].
+      * constructor; [rewrite set_nth_length; exact Hlen|exact Hnd|exact Hrg|]. exists rs. split; [exact Hseq|].
+        intros j o2 Ho2. destruct (Nat.eq_dec j i) as [->|Hne].
+        -- rewrite nth_error_set_nth_same by lia. rewrite Ho in Ho2. injection Ho2 as <-.
+           assert (Hnin : ~ In i lin).
+           { destruct (Hth i o Ho) as [(_ & B)|[(A & _)|[(r & A & _)|(r & A & _)]]]; [exact B| | |]; rewrite Ht in A; discriminate A. }
+           unfold start_thread. destruct (zero_step o) as [r|] eqn:Z.
+           ++ right. right. left. exists r. auto.
+           ++ right. left. auto.
+        -- rewrite nth_error_set_nth_other by congruence. apply Hth. exact Ho2.
+      * intros j Hj. apply Hns. intros t Htj. destruct (Nat.eq_dec j i) as [->|Hne].
+        -- rewrite Ht in Htj. injection Htj as <-. reflexivity.
+        -- apply Hj. rewrite nth_error_set_nth_other by congruence. exact Htj.
+    + split; [constructor; eauto|split; [exists []; rewrite app_nil_r; reflexivity|exact Hns]].
+    + split; [constructor; eauto|split; [exists []; rewrite app_nil_r; reflexivity|exact Hns]].
+  - (* a repository step *)
+    destruct (nth_error ts i) as [[o|t]|] eqn:Ht;
+      try (split; [constructor; eauto|split; [exists []; rewrite app_nil_r; reflexivity|exact Hns]]).
+    destruct t as [o|id m|r0]; try (split; [constructor; eauto|split; [exists []; rewrite app_nil_r; reflexivity|exact Hns]]).
+    + assert (Hi : i < length ops). { rewrite <- Hlen. apply nth_error_Some. congruence. }
+      destruct (nth_error ops i) as [o'|] eqn:Ho; [|apply nth_error_None in Ho; lia].
+      assert (Hcase : o' = o /\ zero_step o = None /\ ~ In i lin).
+      { destruct (Hth i o' Ho) as [(A & _)|[(A & B & C)|[(r & A & _)|(r & A & _)]]]; rewrite Ht in A; try discriminate A.
+        injection A as <-. auto. }
+      destruct Hcase as (-> & Hz & Hnin).
+      assert (Ha : atomic_op o = true). { rewrite forallb_forall in Hat. apply Hat. eapply nth_error_In; eauto. }
+      rewrite (grant_atomic _ _ _ Ha). destruct (step_with (thread_fid i) st o) as [st' a] eqn:Hs. cbn [fst snd].
+      split; [|split; [exists [i]; reflexivity|]].
+      * constructor; [rewrite set_nth_length; exact Hlen|apply NoDup_app_one; assumption| |].
+        { intros j Hj. apply in_app_or in Hj. destruct Hj as [Hj|[<-|[]]]; [apply Hrg; exact Hj|exact Hi]. }
+        exists (rs ++ [(i, a)]). split; [eapply run_sequential_snoc; eauto|].
+        intros j o2 Ho2. destruct (Nat.eq_dec j i) as [->|Hne].
+        -- right. right. right. exists a. rewrite nth_error_set_nth_same by lia. split; [reflexivity|].
+           split; apply in_or_app; right; left; reflexivity.
+        -- rewrite nth_error_set_nth_other by congruence.
+           destruct (Hth j o2 Ho2) as [(A & B)|[(A & B & C)|[(r & A & B & C)|(r & A & B & C)]]].
+           ++ left. split; [exact A|]. intros Hin. apply in_app_or in Hin. destruct Hin as [Hin|[Hin|[]]]; [contradiction|congruence].
+           ++ right. left. split; [exact A|]. split; [exact B|]. intros Hin. apply in_app_or in Hin. destruct Hin as [Hin|[Hin|[]]]; [contradiction|congruence].
+           ++ right. right. left. exists r. split; [exact A|]. split; [exact B|]. intros Hin. apply in_app_or in Hin. destruct Hin as [Hin|[Hin|[]]]; [contradiction|congruence].
+           ++ right. right. right. exists r. split; [exact A|]. split; apply in_or_app; left; assumption.
+      * intros j Hj Hin. apply in_app_or in Hin. destruct Hin as [Hin|[<-|[]]].
+        -- revert Hin. apply Hns. intros t Htj. destruct (Nat.eq_dec j i) as [->|Hne].
+           ++ specialize (Hj (RRunning (TDone a))). rewrite nth_error_set_nth_same in Hj by lia. specialize (Hj eq_refl). discriminate Hj.
+           ++ apply Hj. rewrite nth_error_set_nth_other by congruence. exact Htj.
+        -- specialize (Hj (RRunning (TDone a))). rewrite nth_error_set_nth_same in Hj by lia. specialize (Hj eq_refl). discriminate Hj.
+    + (* a pending save: impossible when every request is a single call *)
+      exfalso. assert (Hi : i < length ops). { rewrite <- Hlen. apply nth_error_Some. congruence. }
+      destruct (nth_error ops i) as [o'|] eqn:Ho; [|apply nth_error_None in Ho; lia].
+      destruct (Hth i o' Ho) as [(A & _)|[(A & _)|[(r & A & _)|(r & A & _)]]]; rewrite Ht in A; discriminate A.
+Qed.
+
+Lemma rt_run_inv st0 ops : forallb atomic_op ops = true -> forall es st ts lin,
+  rt_inv st0 ops st ts lin ->
+  let '(st', ts', lin') := rt_run es st ts lin in
+  rt_inv st0 ops st' ts' lin' /\ (exists ext, lin' = lin ++ ext) /\
+  (forall j, (forall t, nth_error ts' j = Some t -> rt_started t = false) -> ~ In j lin').
+Proof.
+  intros Hat. induction es as [|e r IH]; intros st ts lin Hinv; cbn [rt_run].
+  - split; [exact Hinv|]. split; [exists []; rewrite app_nil_r; reflexivity|].
+    (* not started => not in lin: from one no-op event *)
+    pose proof (rt_event_inv st0 ops (EStart (length ts)) st ts lin Hat Hinv) as H. cbn [rt_event] in H.
+    assert (Hn : nth_error ts (length ts) = None) by (apply nth_error_None; lia). rewrite Hn in H. tauto.
+  - pose proof (rt_event_inv st0 ops e st ts lin Hat Hinv) as H.
+    destruct (rt_event e st ts lin) as [[st1 ts1] lin1]. destruct H as (Hinv1 & (ext1 & E1) & _).
+    specialize (IH st1 ts1 lin1 Hinv1). destruct (rt_run r st1 ts1 lin1) as [[st2 ts2] lin2].
+    destruct IH as (Hinv2 & (ext2 & E2) & Hns). split; [exact Hinv2|]. split; [|exact Hns].
+    exists (ext1 ++ ext2). rewrite E2, E1, app_assoc. reflexivity.
+Qed.
+
+(* Linearizability with real time. Requests arrive (EStart) and take their repository step (EStep) in any
+   order of events. At every moment the store is the sequential run of lin, the order of the repository
+   calls made so far, and each finished request has the response that run gives it. lin only grows at its
+   end, and a request that has not arrived is not in it: so a request finished before another one arrives
+   precedes it in the final order - the order is consistent with real time. *)
+Theorem concurrent_requests_linearize_in_real_time st0 ops es1 es2 :
+  forallb atomic_op ops = true ->
+  let '(st1, ts1, lin1) := rt_run es1 st0 (map RNotStarted ops) [] in
+  let '(st2, ts2, lin2) := rt_run es2 st1 ts1 lin1 in
+  rt_inv st0 ops st1 ts1 lin1 /\ rt_inv st0 ops st2 ts2 lin2 /\
+  (exists later, lin2 = lin1 ++ later) /\
+  (forall j, (forall t, nth_error ts1 j = Some t -> rt_started t = false) -> ~ In j lin1).
+Proof.
+  intros Hat.
+  pose proof (rt_run_inv st0 ops Hat es1 st0 (map RNotStarted ops) [] (rt_inv_start st0 ops)) as H1.
+  destruct (rt_run es1 st0 (map RNotStarted ops) []) as [[st1 ts1] lin1]. destruct H1 as (I1 & _ & N1).
+  pose proof (rt_run_inv st0 ops Hat es2 st1 ts1 lin1 I1) as H2.
+  destruct (rt_run es2 st1 ts1 lin1) as [[st2 ts2] lin2]. destruct H2 as (I2 & E2 & _).
+  auto.
+Qed.
